@@ -211,7 +211,8 @@ def resolve (w : World) (srcDir : Str) (dot : Bool) (raw : Str) : Except Err Str
   | .ok (fromRoot, importPath) => importLocalFile w fromRoot importPath srcDir
 
 /-! ### the same pipeline, factored: which components does an import append to its base directory?
-(`Lemmas.resolve_dot_eq` / `resolve_root_eq` prove that `resolve` is exactly this.) -/
+(`Lemmas.resolve_dot_rel` / `resolve_root_rel`: whenever `resolve` succeeds, the file it names is the base
+directory followed by exactly these components; the failure cases are tied by the correspondence runs.) -/
 
 /-- `fileValue`'s default extension, on the last component -/
 def extAdj (ns : List Str) : List Str :=
